@@ -23,7 +23,7 @@ const INTERESTING: [u8; 14] = [0, 1, 2, 3, 7, 8, 0x3f, 0x40, 0x41, 0x7f, 0x80, 0
 pub fn mutate(rng: &mut Rng, h: &Honest, other: Option<&Honest>) -> (Vec<u8>, String) {
     let mut b = h.bytes.clone();
     let comps = &h.layout;
-    let kind = rng.usize(13);
+    let kind = rng.usize(14);
     let pick_comp = |rng: &mut Rng| {
         let i = rng.usize(comps.len() - 1);
         (comps[i].0, comps[i].1, comps[i + 1].1)
@@ -92,6 +92,21 @@ pub fn mutate(rng: &mut Rng, h: &Honest, other: Option<&Honest>) -> (Vec<u8>, St
             let at = rng.usize(b.len());
             b[at] = rng.u8();
             (b, "random-byte".into())
+        },
+        13 => {
+            // blowup factor lowered to the minimum the options allow (other context fields kept)
+            let c = &h.proof.context;
+            let o = c.options();
+            let fo = o.to_fri_options();
+            let low = winter_air::ProofOptions::new(o.num_queries(), 2, o.grinding_factor(), o.field_extension(), fo.folding_factor(), fo.remainder_max_degree(), o.constraint_batching_method(), o.deep_poly_batching_method());
+            let mut v = winter_utils::Serializable::to_bytes(c.trace_info());
+            v.push(c.field_modulus_bytes().len() as u8);
+            v.extend_from_slice(c.field_modulus_bytes());
+            v.extend(winter_utils::Serializable::to_bytes(&low));
+            winter_utils::Serializable::write_into(&c.num_constraints(), &mut v);
+            let ctx_end = comps[1].1;
+            v.extend_from_slice(&b[ctx_end..]);
+            (v, "blowup-lowered-to-2".into())
         },
         12 => {
             // the field modulus bytes of the context resized / replaced (length prefix consistent)
